@@ -363,6 +363,18 @@ pub assume_specification[ <NodeStamp as Default>::default ]() -> (r: NodeStamp)
         r.0 == 0,
 ;
 
+/// an arena without slots is acyclic whatever its other fields say
+pub proof fn lemma_empty_acyclic<T>()
+    // @props C02 C01
+    ensures
+        forall|a: Arena<T>| a.nodes@.len() == 0 ==> #[trigger] a.acyclic(),
+{
+    assert forall|a: Arena<T>| a.nodes@.len() == 0 implies #[trigger] a.acyclic() by {
+        let w = Ranks { depth: |i: int| 0nat, rem: |i: int| 0nat, pos: |i: int| 0nat, bound: 0 };
+        assert(ranked(a.nodes@, w));
+    }
+}
+
 pub proof fn lemma_empty_wf<T>()
     // @props C13 C01
     ensures
